@@ -229,11 +229,8 @@ func codecCase(out *Out, t *Target, v *vval.Val, vs string, junk, u8, modelOK bo
 		if junk {
 			key = "nil-junk-marshal-panic"
 		}
-		prop := "C01"
-		out.Violate(prop, key, "proto.Marshal panicked: "+mDet, replay("enc"))
-		if !pSize && junk {
-			out.Violate("C04", "nil-junk-marshal-panic", "Size returned but Marshal panicked", replay("enc"))
-		}
+		out.Violate("C01", key, "proto.Marshal panicked: "+mDet, replay("enc"))
+		out.Violate("C04", key, "proto.Marshal panicked (Size returned "+fmt.Sprint(size)+"): "+mDet, replay("enc"))
 		return
 	}
 	if detErr != nil || ndErr != nil {
@@ -241,6 +238,10 @@ func codecCase(out *Out, t *Target, v *vval.Val, vs string, junk, u8, modelOK bo
 			out.Violate("C01", "marshal-error", fmt.Sprintf("proto.Marshal failed on valid-UTF8 value: %v %v", detErr, ndErr), replay("enc"))
 		}
 		return
+	}
+	// C14: re-encoding emits the unknown bytes unchanged after all known fields (top level: a suffix)
+	if len(v.B) > 0 && (!bytes.HasSuffix(detBytes, v.B) || !bytes.HasSuffix(ndBytes, v.B)) {
+		out.Violate("C14", "reencode-unknown-not-last", "unknown fields are not emitted unchanged after the known fields", replay("enc"))
 	}
 	// C04: size == len
 	if size != len(detBytes) || size != len(ndBytes) {
@@ -283,6 +284,9 @@ func codecCase(out *Out, t *Target, v *vval.Val, vs string, junk, u8, modelOK bo
 				out.Violate("C02", "reference-error", err.Error(), replay("enc"))
 			} else if !bytes.Equal(refBytes, detBytes) {
 				out.Violate("C02", "det-bytes-differ", "deterministic bytes differ from reference: pulsar="+hexs(detBytes)+" ref="+hexs(refBytes), replay("enc"))
+				if hasUnknown(v) {
+					out.Violate("C14", "reencode-differs-with-unknown", "re-encoding of a message holding unknown fields differs from the reference", replay("enc"))
+				}
 			}
 			if rs := proto.Size(dyn); rs != size {
 				out.Violate("C04", "size-vs-reference", fmt.Sprintf("Size=%d reference=%d", size, rs), replay("size"))
